@@ -232,13 +232,16 @@ func (c *conn) Done() <-chan struct{} {
 // Err implements Conn.
 func (c *conn) Err() error {
 	if err := c.err.Load(); err != nil {
-		return err.(error)
+		return err.(runError).err
 	}
 	return nil
 }
 
+// runError holds the run error: an atomic.Value panics when values of different concrete types are stored in it.
+type runError struct{ err error }
+
 // fail sets a failure condition on the stream and closes it.
 func (c *conn) fail(err error) {
-	c.err.Store(err)
+	c.err.Store(runError{err})
 	c.stream.Close()
 }
